@@ -621,6 +621,18 @@ def _str_method(s, name):
     def split(ex, sep=None, maxsplit=-1):
         if isinstance(s, str) and (sep is None or isinstance(sep, str)):
             return s.split(sep, maxsplit)
+        if isinstance(sep, str) and len(sep) == 1 and maxsplit == -1:
+            # forks on every character: is it the separator?
+            parts, cur = [], []
+            for c in str_chars(s):
+                hit = (c == ord(sep)) if isinstance(c, int) else ex.truth(compare('==', c, ord(sep)))
+                if hit:
+                    parts.append(mk_str(cur))
+                    cur = []
+                else:
+                    cur.append(c)
+            parts.append(mk_str(cur))
+            return parts
         raise Unsupported('split of symbolic string')
 
     def join(ex, it):
